@@ -615,8 +615,8 @@ def p_nodes_raw(nodes: list[tuple], r: random.Random | None = None) -> str:
 
 
 # Lines inside a liquid-tag comment block are indented like any other line only
-# once /repo accepts that (defect 31: "unclosed comment block" for an indented endcomment).
-LIQUID_COMMENT_INDENT = False
+# since /repo 7016023 (defect 31: "unclosed comment block" for an indented endcomment).
+LIQUID_COMMENT_INDENT = True
 NOIND = "\ue004"
 
 
